@@ -3,11 +3,20 @@
    sides, final formulae) is the hand-written model/Transport.v tied by the correspondence check.  Linear solves are
    not modelled: the theorems hold for ANY solution of the first block row.
    What is a theorem: column sums of the first block row, the momentum constraint it forces on every solution,
-   sum_i D^T_i = 0, D_ii = 0 and the diffusion mass identity.  NOT a theorem (validated on the implementation):
-   split invariance of a neutral species and density scaling in neutral mixtures. *)
-From Coq Require Import Reals List.
+   sum_i D^T_i = 0, D_ii = 0 and the diffusion mass identity; density scaling: every regenerated block (q22 / q23 as they
+   stand included) is homogeneous of degree 2 in the densities for fixed collision integrals, hence scaling all
+   densities by c maps every solution x of the viscosity / translational-conductivity systems to x / c and leaves
+   viscosity and translational thermal conductivity unchanged (collision integrals of neutral pairs do not depend on
+   the densities: C13 kernels Qnn); species splitting, viscosity: replacing a species by two pseudo-species of the same mass and
+   collision integrals that share its density maps every solution of the viscosity system to a solution of the split
+   system (both copies carry the original coefficient) with the same viscosity; the same for the 4 nu x 4 nu system and
+   the translational thermal conductivity k' (row forms of all sixteen assembled blocks, q22 / q23 / q32 with whichever
+   coefficient tables the code has).  NOT a theorem (validated on the implementation): split invariance of the reaction /
+   thermal-diffusion parts of the thermal conductivity and of the electrical conductivity (their diffusion systems have
+   right-hand sides that are not proportional to the densities). *)
+From Coq Require Import Reals List Lia Lra.
 Import ListNotations.
-From MPC Require Import Num Species RInst StatMech RVec RSumIdx GenTransport Transport C12_proofs.
+From MPC Require Import Num Species RInst StatMech RVec RSumIdx GenTransport Transport C12_proofs C12_scaling C12_split C05_blocks C12_forms C12_split_q.
 Open Scope R_scope.
 
 (* columns of q^{0p}, p >= 1, sum to zero for symmetric collision integrals, any number of species, any masses > 0 *)
@@ -64,3 +73,63 @@ Theorem C12_diffusion_identities : forall (masses nd : nat -> R) (nb : nat), (fo
   (forall h k, (h < nb)%nat -> (k < nb)%nat -> sumn nb (fun i => masses i * (masses h * D i h - masses k * D i k)) = 0).
 Proof. intros masses nd nb Hm Q S1 S2 S3 S4 U rho ntot T y. now apply diffusion_identities. Qed.
 Print Assumptions C12_diffusion_identities.
+
+(* density scaling at fixed collision integrals: any solution, any number of species *)
+Theorem C12_viscosity_density_scaling : forall (masses nd : nat -> R) (nb : nat) (Q : @qints R) (U : Units R) (T c : R) (x : nat -> R),
+  c <> 0 -> visc_system masses nb Q U T nd x ->
+  visc_system masses nb Q U T (fun i => c * nd i) (fun col => x col / c) /\
+  visc_value RNum U T (fun i => c * nd i) nb (fun col => x col / c) = visc_value RNum U T nd nb x.
+Proof. intros masses nd nb Q U T c x. apply viscosity_density_scaling. Qed.
+Print Assumptions C12_viscosity_density_scaling.
+
+Theorem C12_translational_conductivity_density_scaling : forall (masses nd : nat -> R) (nb : nat) (Q : @qints R) (U : Units R) (T c : R) (x : nat -> R),
+  c <> 0 -> kdash_system masses nb Q nd x ->
+  kdash_system masses nb Q (fun i => c * nd i) (fun col => x col / c) /\
+  kdash_value RNum U T masses (fun i => c * nd i) nb (fun i => x (nb + i)%nat / c) = kdash_value RNum U T masses nd nb (fun i => x (nb + i)%nat).
+Proof. intros masses nd nb Q U T c x. apply kdash_density_scaling. Qed.
+Print Assumptions C12_translational_conductivity_density_scaling.
+
+(* species splitting leaves the viscosity unchanged: blocks as assembled by the code (Transport.qhatblock, of which
+   qhatentry is the flat indexing), any number of species, any species k, any split fraction f, any solution x *)
+Theorem C12_viscosity_split_invariant :
+  forall (U : Units R) (T : R) (masses nd : nat -> R) (nb k : nat) (f : R) (Qbar : nat -> nat -> nat -> nat -> R),
+  (forall i, 0 < masses i) -> (k < nb)%nat -> (forall i, (i < nb)%nat -> nd i <> 0) ->
+  forall x : nat -> nat -> R,
+  visc_rows U T masses nd nb (qints_of Qbar) x ->
+  visc_rows U T (masses' masses nb k) (nd' nd nb k f) (S nb) (qints_of (Qbar' nb k Qbar)) (fun p i => x p (origin nb k i)) /\
+  visc_value RNum U T (nd' nd nb k f) (S nb) (fun i => x 0%nat (origin nb k i)) = visc_value RNum U T nd nb (x 0%nat).
+Proof. intros U T masses nd nb k f Qbar Hm Hk Hn x. apply viscosity_split_invariant; assumption. Qed.
+Print Assumptions C12_viscosity_split_invariant.
+
+(* species splitting leaves the translational thermal conductivity unchanged.  Hypothesis on the solution: its first
+   block satisfies the mass-flux constraint sum_j n_j sqrt(m_j) x_0j = 0, which C12_momentum_constraint derives for every
+   solution of this system (right-hand side zero on the first block row) when the constraint factor is non-zero. *)
+Theorem C12_translational_conductivity_split_invariant :
+  forall (U : Units R) (T : R) (masses nd : nat -> R) (nb k : nat) (f : R) (Qbar : nat -> nat -> nat -> nat -> R),
+  (forall i, 0 < masses i) -> (k < nb)%nat -> (forall i, (i < nb)%nat -> nd i <> 0) ->
+  forall x : nat -> nat -> R,
+  q_rows nb masses nd (qints_of Qbar) (kdash_rhs nd) x ->
+  sumn nb (fun j => nd j * sqrt (masses j) * x 0%nat j) = 0 ->
+  q_rows (S nb) (masses' masses nb k) (nd' nd nb k f) (qints_of (Qbar' nb k Qbar)) (kdash_rhs (nd' nd nb k f)) (fun p i => x p (origin nb k i)) /\
+  kdash_value RNum U T (masses' masses nb k) (nd' nd nb k f) (S nb) (fun i => x 1%nat (origin nb k i)) = kdash_value RNum U T masses nd nb (x 1%nat).
+Proof. intros U T masses nd nb k f Qbar Hm Hk Hn x. apply kdash_split_invariant; assumption. Qed.
+Print Assumptions C12_translational_conductivity_split_invariant.
+
+(* the same without the hypothesis on the solution: symmetric (1,s) collision integrals and a non-zero constraint factor *)
+Theorem C12_translational_conductivity_split_invariant' :
+  forall (U : Units R) (T : R) (masses nd : nat -> R) (nb k : nat) (f : R) (Qbar : nat -> nat -> nat -> nat -> R),
+  (forall i, 0 < masses i) -> (k < nb)%nat -> (forall i, (i < nb)%nat -> nd i <> 0) ->
+  (forall s i l, Qbar 1%nat s i l = Qbar 1%nat s l i) -> Sconstraint masses nd nb (Qbar 1%nat 1%nat) <> 0 ->
+  forall x : nat -> nat -> R,
+  q_rows nb masses nd (qints_of Qbar) (kdash_rhs nd) x ->
+  q_rows (S nb) (masses' masses nb k) (nd' nd nb k f) (qints_of (Qbar' nb k Qbar)) (kdash_rhs (nd' nd nb k f)) (fun p i => x p (origin nb k i)) /\
+  kdash_value RNum U T (masses' masses nb k) (nd' nd nb k f) (S nb) (fun i => x 1%nat (origin nb k i)) = kdash_value RNum U T masses nd nb (x 1%nat).
+Proof.
+  intros U T masses nd nb k f Qbar Hm Hk Hn Hsym HS x Hsys.
+  apply C12_translational_conductivity_split_invariant; try assumption.
+  assert (G := C12_momentum_constraint masses nd nb Hm (qints_of Qbar) (Hsym 1%nat) (Hsym 2%nat) (Hsym 3%nat) (Hsym 4%nat) x (fun _ => 0)).
+  cbn [I11 qints_of] in G. rewrite sumn_zero in G.
+  assert (E : - Sconstraint masses nd nb (Qbar 1%nat 1%nat) * sumn nb (fun j => nd j * sqrt (masses j) * x 0%nat j) = 0).
+  { apply G. intros i Hi. apply (Hsys 0%nat i); [lia | exact Hi]. }
+  apply Rmult_integral in E. destruct E as [E|E]; [exfalso; apply HS; lra | exact E].
+Qed.
